@@ -1,6 +1,12 @@
-"""`parse` correspondence suite: Lean Machine.parse vs sievelib.parser.Parser.parse (DESIGN §7.2)."""
+"""`parse` correspondence suite: Lean Machine.parse vs sievelib.parser.Parser.parse (DESIGN §7.2).
+
+Produces *records* (input, meta, impl answer, model answer) that the property plugins run their
+oracles on.  Three streams: exhaustive token sequences (pruned by liveness, dead prefixes sampled),
+grammar-directed valid scripts with all single-token edits, byte-level mutations.
+"""
 import itertools, sys, os, multiprocessing as mp
 from common import *
+import gen_scripts
 
 NPROC = int(os.environ.get("VERIF_NPROC", "16"))
 
@@ -17,6 +23,19 @@ VOCAB = [
     b"hasflag", b"date", b"currentdate", b"foo", b"control", b"IF", b":IS",
 ]
 
+CORPUS = [
+    b'require "imap4flags"; if hasflag {', b"require;", b"control;", b"action;", b"if test {}", b"unknown;", b"command;",
+    b'keep "\xff";', b'if header "\xc3\xa9\xc3\xa9\xc3\xa9\xc3\xa9\xc3\xa9\xc3\xa9\xc3\xa9\xc3\xa9\xc3\xa9\xc3\xa9\xc3\xa9\xc3\xa9\xc3\xa9\xc3\xa9\xc3\xa9" "a" "b" {keep;}',
+    b"stop", b"stop {}", b"stop true;", b'stop ["a"];', b"if anyof(true);", b"keep;\nelse {\n\n\n}", b'if header "a" {}', b'if header "a";',
+    b"if true {} else true {}", b'require "imap4flags"; addflag "MyFlags" "Big";', b'require "imap4flags"; if anyof(hasflag "a", true) {keep;}',
+    b'require "relational"; if header :COUNT "gt" "a" "3" {}', b'require "body"; if body :content ["text"] "a" {}',
+    b'require "reject"; reject text:\r\nhello $1\r\n.\r\n;', b'if header ["\\"a\\""] "d" {keep;}', b"if anyof(true) , true {}",
+    b'require "imap4flags"; keep :flags "x";', b'require "imap4flags"; if hasflag "a" :comparator { keep; }',
+    b'require ["relational","imap4flags"]; if hasflag "a" :count { keep; }', b"/** doc **/ keep; /* b */ stop;",
+    b'require "fileinto"; fileinto "INBOX" :copy;', b"keep :nosuchtag;", b'if true { keep; } else', b'require "fileinto"; fileinto "INBOX"',
+    b'require "regex"; if header :REGEX "a" "b" {keep;}', b'if header :REGEX "a" "b" {keep;}', b'vacation :SECONDS 5 "x";',
+]
+
 
 def render(tokens):
     return b" ".join(tokens)
@@ -24,7 +43,7 @@ def render(tokens):
 
 def _py_worker(chunk):
     import pyref
-    return [pyref.parse_answer(t) for t in chunk]
+    return [pyref.parse_answer(t, want_yields=True)[:2] for t in chunk]
 
 
 def _lean_worker(chunk):
@@ -47,78 +66,134 @@ def chunks(xs, n):
 
 
 def eval_both(inputs):
-    """returns (impl_answers, model_answers)"""
+    """returns (impl_answers, impl_yields, model_answers)"""
     if not inputs:
-        return [], []
+        return [], [], []
     cs = chunks(inputs, NPROC * 4)
     p = pool()
     ra = p.map_async(_py_worker, cs)
     rb = p.map_async(_lean_worker, cs)
     a = [x for c in ra.get() for x in c]
     b = [x for c in rb.get() for x in c]
-    return a, b
+    return [x[0] for x in a], [x[1] for x in a], b
 
 
 def is_live(ans):
-    """prefix may still be extended to something accepted"""
     return ans.startswith("accept") or " endExpected" in ans or " endUnfinished" in ans
 
 
-class Stats:
+class Records:
+    """everything a run evaluated: parallel lists"""
+
     def __init__(self):
-        self.evaluations = 0
-        self.nontrivial = 0
+        self.text, self.meta, self.impl, self.yields, self.model = [], [], [], [], []
         self.classes = {}
-        self.diffs = []
-        self.samples = []
+        self.stream_counts = {}
 
-    def add(self, inputs, impl, model):
-        for t, a, b in zip(inputs, impl, model):
-            self.evaluations += 1
-            cls = a.split(" ")[0] if not a.startswith("reject") else "reject:" + a.split(" ")[4]
+    def add(self, texts, metas, impl, yields, model):
+        self.text += texts
+        self.meta += metas
+        self.impl += impl
+        self.yields += yields
+        self.model += model
+        for a, m in zip(impl, metas):
+            cls = a.split(" ")[0] if not a.startswith("reject") else "reject:" + (a.split(" ") + ["?"] * 5)[4]
             self.classes[cls] = self.classes.get(cls, 0) + 1
-            if a.startswith("accept") and a.count("(") >= 2 or (a.startswith("reject") and t.count(b" ") >= 3):
-                self.nontrivial += 1
+            self.stream_counts[m["stream"]] = self.stream_counts.get(m["stream"], 0) + 1
+
+    def diffs(self):
+        out = []
+        for t, a, b in zip(self.text, self.impl, self.model):
             if a != b:
-                self.diffs.append({"input": t.hex(), "text": t.decode("latin-1"), "impl": a[:600], "model": b[:600]})
-        if inputs and len(self.samples) < 6:
-            self.samples.append(inputs[len(inputs) // 2].decode("latin-1"))
+                out.append({"suite": "parse", "input_hex": t.hex(), "input": t.decode("latin-1"), "impl": a[:500], "model": b[:500]})
+        return out
+
+    def nontrivial(self):
+        seen = set()
+        n = 0
+        for t, a in zip(self.text, self.impl):
+            if t in seen:
+                continue
+            seen.add(t)
+            if (a.startswith("accept") and a.count("(") >= 2) or (a.startswith("reject") and len(t.split()) >= 4):
+                n += 1
+        return n
+
+    def __len__(self):
+        return len(self.text)
 
 
-def exhaustive(depth, stats, preamble=b"", sample_dead=2000):
-    r = rng("parse-exh")
+def stream_exhaustive(rec, depth, preamble=b"", tag="exh", sample_dead=1500):
+    r = rng("parse-exh" + tag)
     live = [()]
     for d in range(1, depth + 1):
         cands = [p + (v,) for p in live for v in VOCAB]
         texts = [preamble + render(c) for c in cands]
-        impl, model = eval_both(texts)
-        stats.add(texts, impl, model)
+        impl, ys, model = eval_both(texts)
+        rec.add(texts, [{"stream": tag, "tokens": len(c)} for c in cands], impl, ys, model)
         newlive, dead = [], []
         for c, a in zip(cands, impl):
             (newlive if is_live(a) else dead).append(c)
-        # extensions of dead prefixes: sampled (prefix determinism is checked, not assumed)
         if dead:
             ext = [r.choice(dead) + (r.choice(VOCAB), r.choice(VOCAB)) for _ in range(min(sample_dead, len(dead)))]
             texts = [preamble + render(c) for c in ext]
-            impl, model = eval_both(texts)
-            stats.add(texts, impl, model)
+            impl, ys, model = eval_both(texts)
+            rec.add(texts, [{"stream": tag + "-dead", "tokens": len(c)} for c in ext], impl, ys, model)
         live = newlive
     return len(live)
 
 
-def run(tier="quick"):
-    st = Stats()
-    depth = int(os.environ.get("PARSE_DEPTH", "0")) or (5 if tier == "quick" else 7)
-    nlive = exhaustive(depth, st)
-    nlive2 = exhaustive(depth, st, PREAMBLE)
-    return {"suite": "parse", "evaluations": st.evaluations, "distinct_nontrivial": st.nontrivial, "classes": st.classes,
-            "ndiffs": len(st.diffs), "diffs": st.diffs[:25], "samples": st.samples, "live_prefixes_at_depth": [nlive, nlive2],
-            "vocab": len(VOCAB), "depth": depth}
+def stream_generated(rec, table, nscripts, edits_per=6, tag="gen"):
+    r = rng("parse-gen")
+    g = gen_scripts.Gen(table, r)
+    texts, metas = [], []
+    for i in range(nscripts):
+        toks, need, nreq = g.script(depth=2)
+        style = "rand" if i % 2 else "space"
+        texts.append(gen_scripts.render(toks, r, style))
+        metas.append({"stream": tag, "valid": True, "need": sorted(need), "ntok": len(toks), "tokens": [t.hex() for t in toks], "nreq": nreq})
+        if i < nscripts // 2:
+            for kind, pos, mt in gen_scripts.single_edits(toks, VOCAB, r, limit=edits_per):
+                texts.append(gen_scripts.render(mt))
+                metas.append({"stream": tag + "-edit", "edit": kind, "pos": pos})
+    impl, ys, model = eval_both(texts)
+    rec.add(texts, metas, impl, ys, model)
+
+
+def stream_bytes(rec, table, nbase, per, tag="bytes"):
+    r = rng("parse-bytes")
+    g = gen_scripts.Gen(table, r)
+    texts, metas = [], []
+    for t in CORPUS:
+        texts.append(t)
+        metas.append({"stream": "corpus"})
+    for i in range(nbase):
+        toks, need, nreq = g.script(depth=2)
+        base = gen_scripts.render(toks, r, "rand")
+        for m in gen_scripts.byte_mutations(base, r, per):
+            texts.append(m)
+            metas.append({"stream": tag})
+    impl, ys, model = eval_both(texts)
+    rec.add(texts, metas, impl, ys, model)
+
+
+def run_streams(tier, table, want=("exh", "gen", "bytes")):
+    rec = Records()
+    depth = int(os.environ.get("PARSE_DEPTH", "0")) or (5 if tier == "quick" else 6)
+    info = {"depth": depth, "vocab": len(VOCAB)}
+    if "exh" in want:
+        info["live"] = [stream_exhaustive(rec, depth, b"", "exh"), stream_exhaustive(rec, depth, PREAMBLE, "exh-pre")]
+    if "gen" in want:
+        stream_generated(rec, table, 300 if tier == "quick" else 3000)
+    if "bytes" in want:
+        stream_bytes(rec, table, 150 if tier == "quick" else 2000, 40)
+    return rec, info
 
 
 if __name__ == "__main__":
-    import time
+    gj = json.load(open(os.path.join(VERIF, ".cache", "generated.json")))
     t0 = time.time()
-    res = run(sys.argv[1] if len(sys.argv) > 1 else "quick")
-    res["wall_s"] = time.time() - t0
-    print(json.dumps(res, indent=1)[:6000])
+    rec, info = run_streams(sys.argv[1] if len(sys.argv) > 1 else "quick", gj["table"])
+    d = rec.diffs()
+    print(json.dumps({"n": len(rec), "ndiffs": len(d), "diffs": d[:12], "classes": rec.classes, "streams": rec.stream_counts,
+                      "nontrivial": rec.nontrivial(), "info": info, "wall": time.time() - t0}, indent=1)[:9000])
